@@ -1,4 +1,59 @@
-(* C05 -- placeholder while the proofs are being written; replaced below in this session. *)
-From CandidV Require Import model.Sub.
-Theorem C05_placeholder : True. Proof. exact I. Qed.
-Print Assumptions C05_placeholder.
+(* C05 -- Subtype and upgrade checks decide the spec relation, independent of order.
+   [Sub] is the greatest relation closed under ONE rule function ([rule], transcribed from spec/Candid.md);
+   [sub_dec] is the executable oracle used by the correspondence run against
+   subtype / subtype_with_config / subtype_check_all / service_compatible / service_compatibility_report. *)
+From Coq Require Import List NArith.
+From CandidV Require Import model.Sub proofs.SubProofs.
+Open Scope N_scope.
+
+(* the oracle decides the co-inductive relation, for every environment and every pair of types (no bound) *)
+Theorem C05_dec_correct : forall E a b, sub_dec E a b = true <-> Sub E a b.
+Proof. exact sub_dec_correct. Qed.
+
+Theorem C05_eq_dec_correct : forall E a b, eq_dec E a b = true <-> TyEq E a b.
+Proof. exact eq_dec_correct. Qed.
+
+Theorem C05_refl : forall E a, Sub E a a.
+Proof. exact sub_refl. Qed.
+
+Theorem C05_eq_refl : forall E a, TyEq E a a.
+Proof. exact tyeq_refl. Qed.
+
+(* the relation is closed under the rules: every member is justified by one rule application from members *)
+Theorem C05_closed_under_rules : forall E a b,
+  Sub E a b -> exists S : pair -> bool, (forall q, S q = true -> Sub E (fst q) (snd q)) /\ stepb E S (a, b) = true.
+Proof. exact sub_unfold. Qed.
+
+(* rule applications are monotone in their premises, and the answer only depends on premises among the
+   sub-term pairs of the environment and the two types: so the answer cannot depend on anything else
+   (memo contents, earlier queries, order of definitions) as long as the code agrees with [sub_dec] *)
+Theorem C05_rule_monotone : forall E (S S' : pair -> bool) p,
+  (forall q, S q = true -> S' q = true) -> stepb E S p = true -> stepb E S' p = true.
+Proof. exact stepb_mono. Qed.
+
+(* FULL STATEMENT (property text): forall E a b c, Sub E a b -> Sub E b c -> Sub E a c.
+   It is FALSE of the specification's own rule set; the witness is replayed on the implementation
+   (known finding, known_findings.txt): *)
+Theorem C05_trans_refuted :
+  Sub [] cex_a cex_b /\ Sub [] cex_b cex_c /\ ~ Sub [] cex_a cex_c.
+Proof. exact sub_trans_refuted. Qed.
+
+(* non-vacuity: a recursive environment; nat lists are subtypes of int lists in both directions (opt rule) *)
+Example C05_ex_lists :
+  let E := [([76], TOpt (TRec [(0, TPrim PNat); (1, TVar [76])])); ([75], TOpt (TRec [(0, TPrim PInt); (1, TVar [75])]))] in
+  Sub E (TVar [76]) (TVar [75]) /\ Sub E (TVar [75]) (TVar [76]).
+Proof. split; apply sub_dec_correct; vm_compute; reflexivity. Qed.
+(* the stale-memo witness: the correct answer is "no" *)
+Example C05_ex_memo_witness :
+  let E := [ ([78], TRec [(108, TVar [77]); (120, TPrim PNat)]); ([77], TRec [(110, TVar [78])]);
+             ([78;50], TRec [(108, TVar [77;50]); (120, TPrim PText)]); ([77;50], TRec [(110, TVar [78;50])]) ] in
+  ~ Sub E (TRec [(112, TOpt (TVar [78])); (113, TVar [77])]) (TRec [(112, TOpt (TVar [78;50])); (113, TVar [77;50])]).
+Proof. intros E H. apply sub_dec_correct in H. vm_compute in H. discriminate. Qed.
+
+Print Assumptions C05_dec_correct.
+Print Assumptions C05_eq_dec_correct.
+Print Assumptions C05_refl.
+Print Assumptions C05_eq_refl.
+Print Assumptions C05_closed_under_rules.
+Print Assumptions C05_rule_monotone.
+Print Assumptions C05_trans_refuted.
